@@ -719,7 +719,7 @@ func structArgType(info *types.Info, expr ast.Expr) *types.TypeName {
 // qualifiedIdentObject finds the object for an identifier or a
 // qualified identifier, or nil if the object could not be found.
 func qualifiedIdentObject(info *types.Info, expr ast.Expr) types.Object {
-	switch expr := expr.(type) {
+	switch expr := astutil.Unparen(expr).(type) {
 	case *ast.Ident:
 		return info.ObjectOf(expr)
 	case *ast.SelectorExpr:
